@@ -50,9 +50,11 @@ def extract(config="default", profile="dev", repo=REPO, quiet=True):
     stamp = os.path.join(out, "OK")
     if os.path.exists(stamp):
         return out
-    if os.path.isdir(out):
-        shutil.rmtree(out)
-    os.makedirs(out)
+    # extract into a private directory and publish it with one rename: concurrent checks of the same tree never see (or
+    # delete) each other's half-written facts
+    final = out
+    os.makedirs(CACHE, exist_ok=True)
+    out = tempfile.mkdtemp(prefix="%s-%s-%s.tmp-" % (th, config, profile), dir=CACHE)
     td = tempfile.mkdtemp(prefix="vf-target-")
     env = dict(os.environ)
     env["LD_LIBRARY_PATH"] = os.path.join(sysroot(), "lib") + ":" + env.get("LD_LIBRARY_PATH", "")
@@ -71,21 +73,38 @@ def extract(config="default", profile="dev", repo=REPO, quiet=True):
     if p.returncode != 0:
         shutil.rmtree(out, ignore_errors=True)
         raise RuntimeError("fact extraction failed (%s/%s):\n%s" % (config, profile, p.stdout[-4000:]))
-    with open(stamp, "w") as f:
+    with open(os.path.join(out, "OK"), "w") as f:
         f.write("%.1f\n" % (time.time() - t0))
+    try:
+        if os.path.isdir(final) and not os.path.exists(stamp):
+            shutil.rmtree(final, ignore_errors=True)  # leftover of an interrupted run of an older version
+        os.rename(out, final)
+    except OSError:
+        shutil.rmtree(out, ignore_errors=True)  # another process published the same facts first
+        if not os.path.exists(stamp):
+            raise
     prune_cache(keep=th)
-    return out
+    return final
 
 
 def prune_cache(keep):
     """drop cached facts of other trees (disk is limited)"""
     try:
-        ents = [e for e in os.listdir(CACHE) if not e.startswith(keep)]
+        ents = [e for e in os.listdir(CACHE) if not e.startswith(keep) and os.path.isdir(os.path.join(CACHE, e))]
     except OSError:
         return
-    ents.sort(key=lambda e: os.path.getmtime(os.path.join(CACHE, e)))
+    now = time.time()
+
+    def age(e):
+        try:
+            return now - os.path.getmtime(os.path.join(CACHE, e))
+        except OSError:
+            return 0
+    ents.sort(key=age, reverse=True)
+    # only entries that nothing can still be using: older than an hour, and beyond the 12 most recent
     for e in ents[:-12] if len(ents) > 12 else []:
-        shutil.rmtree(os.path.join(CACHE, e), ignore_errors=True)
+        if age(e) > 3600:
+            shutil.rmtree(os.path.join(CACHE, e), ignore_errors=True)
 
 
 _LOADED = {}
